@@ -665,6 +665,14 @@ func main() {
 		}
 	}
 	cov := ev["coverage"].(map[string]any)
+	if miss, _ := cov["required_probes_not_reached"].([]string); len(miss) > 0 && code == 0 {
+		if *tier == "thorough" && *budgetF == 0 && os.Getenv("VERIF_MAXCASES") == "" {
+			fmt.Fprintf(os.Stderr, "check: the thorough run did not reach %v: the workload no longer covers what this check claims; exiting 2\n", miss)
+			code = 2
+		} else {
+			fmt.Printf("check: note: not reached in this run: %v\n", miss)
+		}
+	}
 	fmt.Printf("check: %s %s: evaluations=%v distinct_nontrivial=%v wall=%.1fs\n", prop, *tier, cov["evaluations"], cov["distinct_nontrivial"], time.Since(start).Seconds())
 	if final != "" {
 		fmt.Println(final)
